@@ -297,6 +297,50 @@ func TestBoundedRewardArithmetic(t *testing.T) {
 			fact("large_total_asset_is_not_starved", "%s: a deposit of 2000000000 was paid out as %s (err %v) and %s (err %v); each asset is due 1000000000 (0.01%% tolerance)", name, c1, e1, c2, e2)
 		}
 	}
+	// an alliance whose reward weight is 0 next to one with a positive weight on the same validator: the whole deposit goes to the
+	// positive-weight alliance, whichever of the two is stored first
+	for _, zeroFirst := range []bool{true, false} {
+		cases++
+		name := fmt.Sprintf("zero-weight alliance stored first=%v", zeroFirst)
+		app, ctx := createTestContext(t)
+		start := time.Now().UTC()
+		ctx = ctx.WithBlockTime(start).WithBlockHeight(1)
+		wa, wb := math.LegacyNewDec(1), math.LegacyNewDec(1)
+		app.AllianceKeeper.InitGenesis(ctx, &types.GenesisState{
+			Params: types.DefaultParams(),
+			Assets: []types.AllianceAsset{
+				types.NewAllianceAsset(AllianceDenom, wa, math.LegacyNewDec(0), math.LegacyNewDec(100), math.LegacyNewDec(0), start),
+				types.NewAllianceAsset(AllianceDenomTwo, wb, math.LegacyNewDec(0), math.LegacyNewDec(100), math.LegacyNewDec(0), start),
+			},
+		})
+		addrs := test_helpers.AddTestAddrsIncremental(app, ctx, 4, sdk.NewCoins(sdk.NewCoin(AllianceDenom, math.NewInt(10_000_000)), sdk.NewCoin(AllianceDenomTwo, math.NewInt(10_000_000)), sdk.NewCoin("rwa", math.NewInt(10_000_000))))
+		pks := test_helpers.CreateTestPubKeys(1)
+		valAddr := sdk.ValAddress(addrs[0])
+		test_helpers.RegisterNewValidator(t, app, ctx, teststaking.NewValidator(t, valAddr, pks[0]))
+		get := func() types.AllianceValidator {
+			v, err := app.AllianceKeeper.GetAllianceValidator(ctx, valAddr)
+			require.NoError(t, err, name)
+			return v
+		}
+		_, err := app.AllianceKeeper.Delegate(ctx, addrs[2], get(), sdk.NewCoin(AllianceDenom, math.NewInt(1_000_000)))
+		require.NoError(t, err, name)
+		_, err = app.AllianceKeeper.Delegate(ctx, addrs[3], get(), sdk.NewCoin(AllianceDenomTwo, math.NewInt(1_000_000)))
+		require.NoError(t, err, name)
+		zeroDenom, paidDenom, paidTo := AllianceDenom, AllianceDenomTwo, addrs[3]
+		if !zeroFirst {
+			zeroDenom, paidDenom, paidTo = AllianceDenomTwo, AllianceDenom, addrs[2]
+		}
+		ctx = ctx.WithBlockHeight(2).WithBlockTime(start.Add(time.Minute))
+		za, _ := app.AllianceKeeper.GetAssetByDenom(ctx, zeroDenom)
+		za.RewardWeight = math.LegacyZeroDec()
+		require.NoError(t, app.AllianceKeeper.UpdateAllianceAsset(ctx, za), name)
+		ctx = ctx.WithBlockHeight(3).WithBlockTime(start.Add(2 * time.Minute))
+		require.NoError(t, app.AllianceKeeper.AddAssetsToRewardPool(ctx, addrs[1], get(), sdk.NewCoins(sdk.NewCoin("rwa", math.NewInt(1_000_000)))), name)
+		c, cerr := app.AllianceKeeper.ClaimDelegationRewards(ctx, paidTo, get(), paidDenom)
+		if cerr != nil || c.AmountOf("rwa").Sub(math.NewInt(1_000_000)).Abs().GT(math.NewInt(2)) {
+			fact("zero_weight_alliance_does_not_starve_the_others", "%s: a deposit of 1000000 made after %s went to weight 0 paid the %s position %s (err %v)", name, zeroDenom, paidDenom, c, cerr)
+		}
+	}
 	fmt.Printf("BOUNDED-SUMMARY scenarios=%d seed=%d failed_facts=%d\n", cases, seed, len(failed))
 	if len(failed) > 0 {
 		t.Fail()
